@@ -481,10 +481,27 @@ fn wait_race_scenario(flavor: Flavor, scen: u64, seed: u64) -> (Findings, Value)
         }
         std::thread::sleep(Duration::from_micros(rng.range(10, 800)));
     }
+    let mut parked_after_final_drain = 0u64;
     if scen % 4 == 0 || scen % 4 == 2 {
         phase("close");
+        // directed half: the processor is parked right after its final drain (it still owns the receiving
+        // end of the insert buffer) while the waiters go on calling wait() on the closed cache
+        let gate = if flavor.gates_ok() && seed % 2 == 0 {
+            let g = sched::Gate::new();
+            sched::arm_gate_for_role("proc:after_final_drain", 0, g.clone());
+            Some(g)
+        } else {
+            None
+        };
         if let Err(e) = d.close() {
             f.add("C12", "close/error", format!("{name}: close() returned Err({e})"));
+        }
+        if let Some(g) = gate {
+            if g.wait_arrival(Duration::from_secs(2)) {
+                parked_after_final_drain = 1;
+                std::thread::sleep(Duration::from_millis(5));
+            }
+            g.open();
         }
     }
     stop.store(true, Ordering::SeqCst);
@@ -497,7 +514,7 @@ fn wait_race_scenario(flavor: Flavor, scen: u64, seed: u64) -> (Findings, Value)
     sched::arm_delays(1, 0, 0);
     drop(d);
     let _ = workers_gone(flavor, Duration::from_secs(20));
-    (f, json!({"scenario": name, "flavor": flavor.name(), "buffer": buffer, "waiters": nwait, "clears": clears, "wait_ok": stats.0.load(Ordering::SeqCst), "wait_err": stats.1.load(Ordering::SeqCst), "seed": seed}))
+    (f, json!({"scenario": name, "flavor": flavor.name(), "buffer": buffer, "waiters": nwait, "clears": clears, "wait_ok": stats.0.load(Ordering::SeqCst), "wait_err": stats.1.load(Ordering::SeqCst), "seed": seed, "parked_after_final_drain": parked_after_final_drain}))
 }
 
 // =============================================================================================
@@ -716,6 +733,9 @@ fn run_scenarios(ctx: &Ctx, rng: Rng, rep: &mut Report, kind: &str, count: u64, 
                 rep.count(&format!("lc_{kind}_{}", flavor.name()));
                 if let Some(n) = desc.get("scenario").and_then(|s| s.as_str()) {
                     rep.count(&format!("lc_scenario_{n}"));
+                }
+                if let Some(n) = desc.get("parked_after_final_drain").and_then(|s| s.as_u64()) {
+                    rep.add("lc_closes_with_processor_parked_after_final_drain", n);
                 }
                 if let Some(n) = desc.get("buffered_accepted").and_then(|s| s.as_u64()) {
                     rep.add("lc_values_buffered_before_the_stop_signal", n);
